@@ -137,9 +137,15 @@ mixed do_op (string s) {
     mixed *rows = ({ });
     string t = "";
     // rows of function-pointer call_outs whose owner is destructed carry 0 as object: dropped here
-    foreach (mixed *e in inf) if (objectp (e[0])) rows += ({ ({ "/vreg"->oid_of (e[0]), e[1], e[2] }) });
+    // an element that is not a 3-element row is printed as "?" (a malformed line for the oracle)
+    int junk = 0;
+    foreach (mixed e in inf) {
+      if (!arrayp (e) || sizeof (e) != 3) { junk++; continue; }
+      if (objectp (e[0])) rows += ({ ({ "/vreg"->oid_of (e[0]), e[1], e[2] }) });
+    }
     rows = sort_array (rows, "cmp_info");
     foreach (mixed *e in rows) t += " " + e[0] + "/" + e[1] + "/" + e[2];
+    while (junk-- > 0) t += " ?";
     VL (VNOW + " r info" + t);
     break;
   }
